@@ -105,3 +105,35 @@ func randScalarI(rng *hk.RNG) *big.Int {
 func bi(x int64) *big.Int { return big.NewInt(x) }
 
 var b256 = new(big.Int).Lsh(big.NewInt(1), 256)
+
+// patternedPoints returns curve points whose affine x has a carry-critical INTERNAL representation in
+// the coordinate field (x * 2^256 mod p made of limbs 0, 1, 2^32, 2^63, 2^64-1, limbs of p and of the
+// curve constant b ...): "nice" coordinates look random inside, these are the ones that do not.
+func patternedPoints(rng *hk.RNG, count int) []ref.Pt {
+	R := new(big.Int).Lsh(big.NewInt(1), 256)
+	rinv := new(big.Int).ModInverse(R, ref.SM2P)
+	alpha := []uint64{0, 1, 1 << 32, 1 << 63, 1<<64 - 1, 0xFFFFFFFF00000000, 0xFFFFFFFE00000000, 1<<32 - 1, 0xFFFFFFFEFFFFFFFF, 1<<64 - 2}
+	bm := new(big.Int).Mod(new(big.Int).Mul(ref.SM2B, R), ref.SM2P) // internal form of b
+	for i := 0; i < 4; i++ {
+		alpha = append(alpha, new(big.Int).Rsh(bm, uint(64*i)).Uint64())
+	}
+	var out []ref.Pt
+	for tries := 0; len(out) < count && tries < 4000; tries++ {
+		m := new(big.Int)
+		for i := 0; i < 4; i++ {
+			m.Lsh(m, 64)
+			m.Or(m, new(big.Int).SetUint64(alpha[rng.Intn(len(alpha))]))
+		}
+		if m.Cmp(ref.SM2P) >= 0 {
+			continue
+		}
+		x := new(big.Int).Mod(new(big.Int).Mul(m, rinv), ref.SM2P)
+		if P, ok := ref.LiftX(x); ok {
+			if rng.Intn(2) == 0 {
+				P = P.Neg()
+			}
+			out = append(out, P)
+		}
+	}
+	return out
+}
